@@ -152,7 +152,9 @@ def get_count__total_expansion__start_size(length, total_expansion, start_size):
         d_min = start_size * total_expansion
 
     if abs(total_expansion - 1) < constants.TOL:
-        return int(length / d_min)
+        # round up (never produce cells coarser than requested) but
+        # keep exact divisions (10 cells of 0.1 on length 1) as they are
+        return int(np.ceil(length / d_min - constants.TOL))
 
     def fcnt(cnt):
         return (1 - total_expansion ** (cnt / (cnt - 1))) / (
